@@ -103,10 +103,11 @@ def edge_convention(ctx, rule_id="EDGE-CONV"):
     return el
 
 
-def run(ctx):
+def refinement(ctx):
+    """Refinement tables (also run by C04: nested spaces on a refined grid need children 4e+k of parent e that tile it,
+    and the parents' domain indices on them)."""
     m = ctx.repo.mod(GRID)
     pts = bary.ref_points(ctx)
-    # (a) refinement tables
     r = ctx.rule("REFINE-CHILDREN", "children of refine() / barycentric refinement are positively oriented and their areas sum to the parent's", 12)
     kids, mids_ok, dom_ok, ln = bary.refine_table(ctx)
     children_rule(ctx, r, "refine", kids, pts, GRID, "Grid.refine", ln, 4)
@@ -119,8 +120,15 @@ def run(ctx):
     bf = m.fn("barycentric_refinement")
     calls = [c for c in ast.walk(bf) if isinstance(c, ast.Call) and unparse(c.func) == "Grid"]
     bdefs = roles.Defs(bf)
-    okb = len(calls) == 1 and len(calls[0].args) >= 3 and roles.canon(calls[0].args[2], bdefs).replace(" ", "") == roles.expect("_np.repeat(G.domain_indices, 6)", bdefs, calls[0].lineno, G=arg_names(bf)[0])
+    if not (len(calls) == 1 and len(calls[0].args) >= 3):
+        raise AnalysisError("barycentric_refinement: the Grid(vertices, elements, domain indices) construction was not found")
+    okb = bary.per_child_sequence(roles.inline(calls[0].args[2], bdefs), "%s.domain_indices" % arg_names(bf)[0], 6, "barycentric_refinement")
     r2.check(okb, "barycentric domain indices", GRID, "barycentric_refinement", bf.lineno, "barycentric domain indices", "domain indices are not repeated 6 times per element")
+
+
+def run(ctx):
+    # (a) refinement tables
+    refinement(ctx)
     # (b) union
     baryvert.barycentric_vertices(ctx)
     union(ctx)
